@@ -517,7 +517,12 @@ func (in *Interp) forIn(s *gen.Node) error {
 			in.MapLoop = true
 		}
 		for _, k := range keys {
-			if stop, err := iter(k); stop || err != nil {
+			stop, err := iter(k)
+			if len(x) != len(keys) {
+				// the map grew or shrank while it was iterated: which keys are visited is unspecified
+				return ErrMapOrder
+			}
+			if stop || err != nil {
 				return err
 			}
 		}
@@ -1687,6 +1692,23 @@ func (in *Interp) call(n *gen.Node) (any, error) {
 			return nil, in.errf(n.Args[0], "argument yields several values")
 		}
 		in.record(probe.Rec{Label: "pvoid1", Vals: []string{probe.Render(v)}})
+		return Void, nil
+	case "pvoidv":
+		r := probe.Rec{Label: "pvoidv"}
+		for _, a := range n.Args {
+			v, err := in.Eval(a)
+			if err != nil {
+				return nil, err
+			}
+			if IsVoid(v) {
+				return nil, in.errf(a, "argument yields no value")
+			}
+			if _, ok := v.(Multi); ok {
+				return nil, in.errf(a, "argument yields several values")
+			}
+			r.Vals = append(r.Vals, probe.Render(v))
+		}
+		in.record(r)
 		return Void, nil
 	case "pmulti":
 		var out Multi
